@@ -224,3 +224,45 @@ Qed.
 
 Lemma union_perm ops ops' : Forall2 (@Permutation _) ops ops' -> Permutation (union ops) (union ops').
 Proof. intros H. unfold union. apply fold_union_perm; auto. Qed.
+
+(* ---------- n-ary union / intersect are the left folds of the binary forms: the text union(A, B, C) is faithfully
+   translated by the left-nested binary nodes of the core language (Model/Expr.v: DSet) *)
+Lemma filter_all_true {A} (f : A -> bool) l : (forall x, f x = true) -> filter f l = l.
+Proof. intros H. induction l as [|x t IH]; simpl; auto. rewrite H, IH. reflexivity. Qed.
+
+Lemma filter_filter {A} (f g : A -> bool) l : filter g (filter f l) = filter (fun x => f x && g x) l.
+Proof.
+  induction l as [|x t IH]; simpl; auto. destruct (f x); simpl; [destruct (g x); simpl; congruence | exact IH].
+Qed.
+
+Lemma union_single a : union [a] = a.
+Proof. unfold union, union_step. simpl. apply filter_all_true. reflexivity. Qed.
+
+Lemma union_binary a b : union [a; b] = union_step a b.
+Proof. unfold union. simpl. change (union_step [] a) with (union [a]). rewrite union_single. reflexivity. Qed.
+
+Lemma fold_union_step_binary rest acc :
+  fold_left union_step rest acc = fold_left (fun x d => union [x; d]) rest acc.
+Proof. revert acc. induction rest as [|d t IH]; intros acc; simpl; auto. rewrite union_binary. apply IH. Qed.
+
+Theorem union_left_nested a rest : union (a :: rest) = fold_left (fun acc d => union [acc; d]) rest a.
+Proof.
+  unfold union at 1. simpl. change (union_step [] a) with (union [a]). rewrite union_single.
+  apply fold_union_step_binary.
+Qed.
+
+Lemma intersect_binary a b : intersect [a; b] = filter (fun r => has_key (fst r) b) a.
+Proof. unfold intersect. apply filter_ext. intros r. simpl. apply andb_true_r. Qed.
+
+Theorem intersect_left_nested a rest : intersect (a :: rest) = fold_left (fun acc d => intersect [acc; d]) rest a.
+Proof.
+  revert a. induction rest as [|d t IH]; intros a; cbn [fold_left].
+  - unfold intersect. apply filter_all_true. reflexivity.
+  - rewrite <- IH, intersect_binary. unfold intersect. rewrite filter_filter. reflexivity.
+Qed.
+
+(* the three-operand instances, as written in scripts *)
+Corollary union_three a b c : union [a; b; c] = union [union [a; b]; c].
+Proof. rewrite (union_left_nested a [b; c]). reflexivity. Qed.
+Corollary intersect_three a b c : intersect [a; b; c] = intersect [intersect [a; b]; c].
+Proof. rewrite (intersect_left_nested a [b; c]). reflexivity. Qed.
